@@ -333,7 +333,7 @@ class QvmCode(BaseCode):
                 # conversion error in run time)
                 if cur_type.can_hold(arg):
                     cur_type = expr.Type.from_type_char(cur.type_char)
-                    arg = cur_type.py_type(arg)
+                    arg = cur_type.coerce(arg)
 
                     self._instrs[i-1] = QvmInstr(
                         f'push{cur.type_char}', arg)
@@ -399,6 +399,7 @@ class QvmCode(BaseCode):
             # Fold push/push/binary-op
             if (prev1.op == prev2.op == Op.PUSH and
                 prev1.type_char == prev2.type_char and
+                prev1.type_char != '$' and
                 cur.op in [Op.ADD, Op.SUB, Op.MUL, Op.DIV, Op.AND,
                            Op.OR, Op.XOR, Op.EQV, Op.IMP, Op.IDIV,
                            Op.MOD, Op.EXP]
